@@ -159,7 +159,29 @@ def c16(chk, thorough):
     chk.floor('IO.precision', 1)
 
 
+def c08(chk, thorough):
+    from . import offsets
+    chk.explanation = (
+        'Decides the label/index and input-relevance clauses of C08: every small integer in LDA, LDAPrediction, LDAError is '
+        'abstracted to class index + offset(class_start); comparisons between labels and indices, stores of predicted labels and '
+        'subscripts of per-class dimensions must carry the right offset for both numbering conventions (class_start 0 and 1); '
+        'LDAMulticlassStatistics (labels from 0) additionally must feed both the true and the predicted labels into the ROC '
+        'inputs (dead-input and overwritten-store dataflow rules). NOT decided: prior/mean values, arg-max optimality, affine '
+        'invariance, AUC = 1.')
+    chk.assumptions = ['class_start is 0 or 1 (its only definitions are those two constants; re-derived on every run)',
+                       'label containers: LDA/LDAError parameter 1, LDAPrediction parameter 5 and locals bound to it']
+    prog = load_program(chk, ['lda.c', 'statistic.c', 'vector.c', 'matrix.c'])
+    offsets.run(chk, prog)
+    offsets.dead_input(chk, prog, ['LDAMulticlassStatistics', 'LDAError', 'LDAPrediction', 'LDA'])
+    offsets.overwritten_store(chk, prog, ['LDAMulticlassStatistics', 'LDAError', 'LDAPrediction', 'LDA'])
+    chk.floor('OF.compare', 6)
+    chk.floor('OF.label-sink', 1)
+    chk.floor('OF.index-subscript', 8)
+    chk.floor('DF.dead-input', 2)
+
+
 CHECKS = {
+    'C08': c08,
     'C16': c16,
     'C05': c05,
     'C03': c03,
